@@ -144,6 +144,7 @@ type Run struct {
 	Out    string // output directory
 	Budget float64
 	R      *Rand
+	Search bool // this run is a witness-search round of bin/check (a proof or the correspondence already broke)
 
 	Stats Stats
 	seen  map[uint64]struct{}
